@@ -993,7 +993,7 @@ func c7TeeWith(c *Ctx, rule string) {
 	if !c.Anchor(rule, "zapcore.multiCore.With", mw != nil && len(mw.Params) == 2) {
 		return
 	}
-	const N = 2
+	N := depth(2, 3)
 	recv, fields := mw.Params[0], mw.Params[1]
 	resolve := func(st *ConcState, v ssa.Value) ssa.Value {
 		for k := 0; k < 16 && v != nil; k++ {
@@ -1041,7 +1041,7 @@ func c7TeeWith(c *Ctx, rule string) {
 	cut := 0
 	seqs, trunc := ConcPaths(mw, ConcCfg{
 		MaxIter: N + 1, Cut: &cut,
-		SliceLen: func(p *ssa.Parameter) (int64, bool) { return N, p == recv },
+		SliceLen: func(p *ssa.Parameter) (int64, bool) { return int64(N), p == recv },
 		Event: func(in ssa.Instruction, st *ConcState) string {
 			switch x := in.(type) {
 			case *ssa.Store:
@@ -1112,7 +1112,8 @@ func c7TeeWith(c *Ctx, rule string) {
 				ok = false
 			}
 		}
-		if ok && strings.Join(got, ",") != "0,1" {
+		wantSlots := []string{"0", "1", "2", "3"}[:N]
+		if ok && strings.Join(got, ",") != strings.Join(wantSlots, ",") {
 			ok = false
 		}
 		if !ok {
